@@ -486,7 +486,7 @@ func senderSession(w *workerCtx, items []*deltaItem) error {
 		if err != nil {
 			return fmt.Errorf("server: %v", err)
 		}
-	case <-time.After(20 * time.Second):
+	case <-idleAfter(20 * time.Second):
 		return fmt.Errorf("server did not finish")
 	}
 	return nil
